@@ -130,7 +130,9 @@ def cases(shard, tier):
                     'no-logical-file', 'second-lf-without-origin', 'same-named-channels-in-frame',
                     'same-named-channels-in-frame-dict', 'same-channel-twice-in-frame',
                     # header fields that do not fit their fixed width, assigned after the header item was made
-                    'header-id-74-chars-assigned-later', 'header-sequence-number-11-digits-assigned-later'):
+                    'header-id-74-chars-assigned-later', 'header-sequence-number-11-digits-assigned-later',
+                    # a frame holding a channel object that was made outside the file (no CHANNEL set of this file has it)
+                    'frame-with-foreign-channel'):
             yield {'family': fam, 'ctx': ctx, 'how': how, 'must': how != 'no-logical-file'}
     elif fam == 'window':
         for src in ('inline', 'dict', 'struct', 'h5'):
@@ -272,6 +274,10 @@ def make_spec(c):
             sp['ops'].append({'op': 'set', 'h': 'O0', 'attr': 'file_id', 'part': 'value', 'value': 'ANOTHER-ID'})
         elif how == 'no-logical-file':
             sp['ops'] = []
+        elif how == 'frame-with-foreign-channel':
+            sp['ops'].append({'op': 'foreign_channel', 'h': 'FC', 'name': 'FOREIGN'})
+            sp['ops'].append(S.op_add('frame', 'FF', 'FRAME-WITH-FOREIGN-CHANNEL', channels=[{'$ref': 'FC'}]))
+            sp['write']['data'] = {'$datadict': {'FOREIGN': _arr('uint8', [3])}}
         elif how == 'header-id-74-chars-assigned-later':
             sp['ops'].append({'op': 'fhid', 'lf': 'L0', 'value': 'H' * 74})
             sp['ops'].append({'op': 'set', 'h': 'O0', 'attr': 'file_id', 'part': 'value', 'value': 'H' * 74})
